@@ -23,7 +23,7 @@ RULE = ("Random and directed sequences of 0..25 sends with lifetimes {0.5, 1, 30
 ASSUMPTIONS = ["no write faults in the model-compared runs; connection instants are read from the simulated network log",
                "a message whose expiry equals the connection instant is expired (code: now < "
                "expiry)"]
-REQUIRED_OBS = ["full_buffer_flushed_after_write_fault", "overflow_raised_during_fault_handling",
+REQUIRED_OBS = ["expiry_during_connected_notification", "full_buffer_flushed_after_write_fault", "overflow_raised_during_fault_handling",
                 "overflow_raised", "expired_purged_made_room", "flushes_compared",
                 "not_open_raised", "held_after_overflow_sent"]
 BUDGET = {"quick": 100, "thorough": 1500}
@@ -110,6 +110,17 @@ def with_write_faults(rnd=None):
                                 ["send", "ac_ctrl", "idem", "inline"]]
                     ops += [["adv", 4.5], ["q"]]
                     out.append(ops)
+    # a lifetime that ends while a connection subscriber is still handling connected=True:
+    # the message expired before anything was flushed, so it is never transmitted
+    for pol, L in (("short", 0.5), ("conn", 1.0)):
+        for back in (0.3 * L, L - 1e-3):
+            for busy in (L, 2 * L + 0.5):
+                for held in (1, 5):
+                    ops = [["q"], ["slow_conn", busy], ["net", "accept", back], ["fin"], ["q"]]
+                    ops += [["send", S.KINDS[i % 3], pol if i % 2 == 0 else "long", "inline"]
+                            for i in range(held + 1)]
+                    ops += [["adv", back + busy + 3.0], ["q"]]
+                    out.append(ops)
     # sends that arrive from the connected notification: the client already calls itself
     # connected, but the held messages have not been written yet
     for held in (8, 9, 10):
@@ -169,6 +180,16 @@ def check_bound(gen, run):
         if len(flushed) == CAP:
             obs["full_buffer_flushed_after_write_fault"] = obs.get(
                 "full_buffer_flushed_after_write_fault", 0) + 1
+    # expired ones are never transmitted (same float arithmetic as the client)
+    for cid, b in by.items():
+        for i in b["frames"]:
+            r = p2s.get((i["frame"].typ, bytes(i["frame"].data)))
+            if r is not None and "call_t" in r and i["t"] >= r["call_t"] + r["policy"][1]:
+                viol.append({"mechanism": "expired-message-transmitted",
+                             "detail": {"serial": r["serial"], "at": i["t"],
+                                        "expiry": r["call_t"] + r["policy"][1]}})
+    if any(k == "SUB.conn_slow" for _, _, k, _ in log.events):
+        obs["expiry_during_connected_notification"] = 1
     rejected = [r for r in run.sends if r["outcome"] == "QueueOverflowError"]
     if rejected:
         obs["overflow_raised_during_fault_handling"] = len(rejected)
